@@ -27,8 +27,8 @@ m = {
     "version": 1,
     "setup_cmd": "./setup.sh",
     "hooks": {
-        "guard": "--cfg actix_verif (RUSTFLAGS) / cfg(kani)",
-        "enable": "RUSTFLAGS='--cfg actix_verif' ACTIX_VERIF_DIR=/verif cargo ... ; cargo kani sets cfg(kani)",
+        "guard": "cfg(kani) (set only by cargo kani; declared in the workspace check-cfg list together with cfg(actix_verif), which no hook uses yet)",
+        "enable": "ACTIX_VERIF_DIR=/verif cargo kani -p <crate> --harness <name>  (cargo kani sets cfg(kani); the hook modules include!() the harness files from /verif/hooks)",
         "baseline_off_cmd": "cd /repo && cargo test --workspace --no-fail-fast --offline",
         "source_commits": props.HOOK_COMMITS,
         "add_only": True,
